@@ -61,6 +61,17 @@ def showRhb (ih : Nat) (a : ANode) : String :=
     s!"{k}:{metaNat a.n.store (rhbKey k "h")}:{metaNat a.n.store (rhbKey k "d")}"
   if l.isEmpty then "-" else String.intercalate "," l
 
+/-- the unmodified submission loop of one kind, ticking until nothing of that kind is pending: each tick is one
+`headersIter` / `dataIter` on what is left of the scripted answers (one answer per `Submit` call; after the script the DA
+double accepts) -/
+def realLoop (isData : Bool) : Nat → ANode → List DAAns → List SW → List SubmitCall → ANode × List SW × List SubmitCall
+  | 0, a, _, ws, calls => (a, ws, calls)
+  | f+1, a, script, ws, calls =>
+    let wm := if isData then a.n.dataWm else a.n.hdrWm
+    if a.n.store.height - wm = 0 then (a, ws, calls) else
+    let r := if isData then dataIter a script else headersIter a script
+    realLoop isData f r.1 (script.drop r.2.2.1.length) (ws ++ r.2.1) (calls ++ r.2.2.1)
+
 def doStart (s : St) (disk : Store) (clean : Bool) (first : Bool) : St × String :=
   let a0 : ANode := if first then {} else s.a
   match Submit.restart s.cfg a0 disk clean with
@@ -97,6 +108,17 @@ def step (s : St) (line : String) : St × String :=
       let outS := match out with
         | .skipped => "skipped" | .fetchErr => "fetchErr" | .done => "done"
         | .incomplete => if canceled then "done" else "incomplete"
+      let cs := if calls.isEmpty then "-" else String.intercalate ";" (calls.map showCall)
+      ({ s with a := a', before := before, ws := ws }, s!"{o.verb} out={outS} calls={cs} {showState a'} w={Drv.Prod.showWs ws}")
+  | "subhreal" | "subdreal" =>
+    let toks := if o.str "script" = "" || o.str "script" = "-" then [] else (o.str "script").splitOn "|"
+    match toks.mapM parseAns with
+    | none => (s, "bad-op")
+    | some script =>
+      let before := s.a.n.store
+      let (a', ws, calls) := realLoop (o.verb = "subdreal") (script.length + 4) s.a script [] []
+      let wm := if o.verb = "subdreal" then a'.n.dataWm else a'.n.hdrWm
+      let outS := if a'.n.store.height - wm = 0 then "quiescent" else "busy"
       let cs := if calls.isEmpty then "-" else String.intercalate ";" (calls.map showCall)
       ({ s with a := a', before := before, ws := ws }, s!"{o.verb} out={outS} calls={cs} {showState a'} w={Drv.Prod.showWs ws}")
   | "incl" | "inclreal" =>
